@@ -19,7 +19,7 @@ func propWalletDLEQ(t *rapid.T) {
 	for k, v := range whist.DefaultWeights {
 		w[k] = v
 	}
-	w["rotate"], w["send_p2pk"], w["send_htlc"], w["mintswap"], w["restart"] = 4, 3, 2, 2, 2
+	w["rotate"], w["send_p2pk"], w["send_htlc"], w["mintswap"], w["restart"], w["join"] = 4, 3, 2, 2, 2, 3
 	m := whist.New(t, whist.Options{
 		Weights: w,
 		Owns:    map[string]bool{"C10": true},
@@ -33,7 +33,7 @@ func propWalletDLEQ(t *rapid.T) {
 	if m.Count["outputs_signed"] > 0 {
 		rec.NonTrivial("wallet|" + strings.Join(m.Trace, "|"))
 		rec.Class("wallet_history")
-		for _, k := range []string{"rotation", "receive_cross_mint", "send_p2pk", "send_htlc", "melt_paid", "restart"} {
+		for _, k := range []string{"rotation", "receive_cross_mint", "send_p2pk", "send_htlc", "melt_paid", "restart", "join_new_wallet", "join_add_mint"} {
 			if m.Count[k] > 0 {
 				rec.Class("wallet_history_with_" + k)
 			}
